@@ -528,6 +528,8 @@ func runC19(c *core.Ctx) {
 	}
 	stacks := c19Stacks()
 	c19Forks(e, dl[len(dl)-40:], stacks)
+	c19MixedDynamicTypes(e, dl[len(dl)-60:], stacks)
+	c19SignedZeros(e, rng, c.Pick(200, 5000))
 	c19DescriptorSorts(e, dl, stacks)
 	c.Count("descriptor_lists", int64(len(dl)))
 	c.Count("descriptor_stacks", int64(len(stacks)))
@@ -542,8 +544,8 @@ func init() {
 		Meta: func(c *core.Ctx) core.Meta {
 			return core.Meta{
 				Level: "exploration",
-				Rule: "records carry a unique id = input position. Comparator sorts (Sort, SortSlice, Stream.Sort, Stream.SortByIndex and the interface{} twins; SortOrdered/Ascending/Descending on int/string/float64): every list of length 0..L over keys {0,1,2} (L=6 quick, 8 thorough) plus PRNG lists up to 200, five comparators incl. composite and all-equal; oracle = permutation + no pair out of order (all pairs) + stability (all pairs) + input unmodified for the non-in-place forms. " +
-					"Descriptor sorts (SortedListBySortDescriptors, builder.ToSortedList, SortBySortDescriptors, builder.Sort): all 492 stacks of 1..3 distinct keys x direction mixes x {transformer, field-name} with ComparableOrdered[int], ComparableString, ComparableOrdered[float64] keys over all lists up to length 2 (3) of 12 record values plus PRNG lists, field-name stacks also on a second record type that has the same field names at other positions; PRNG lists with keys at the extremes of their type (Max/MinInt64, +-2^62, +-Inf, denormals); builders forked from one shared prefix builder (all one-key extensions of every 0..2-key prefix built first, then each sorts); oracle = permutation ordered under the reference lexicographic comparison. distinct_nontrivial = enumerated (api, comparator/stack, list) cases with >= 2 elements",
+				Rule: "records carry a unique id = input position. Comparator sorts (Sort, SortSlice, Stream.Sort, Stream.SortByIndex and the interface{} twins; SortOrdered/Ascending/Descending on int/string/float64): every list of length 0..L over keys {0,1,2} (L=6 quick, 8 thorough) plus PRNG lists up to 200, five comparators incl. composite and all-equal; oracle = permutation + no pair out of order (all pairs) + stability (all pairs) + input unmodified for the non-in-place forms; float lists with -0.0 / +0.0 (equal but distinguishable) compared bit for bit with a strict stable reference sort, both directions. " +
+					"Descriptor sorts (SortedListBySortDescriptors, builder.ToSortedList, SortBySortDescriptors, builder.Sort): all 492 stacks of 1..3 distinct keys x direction mixes x {transformer, field-name} with ComparableOrdered[int], ComparableString, ComparableOrdered[float64] keys over all lists up to length 2 (3) of 12 record values plus PRNG lists, field-name stacks also on a second record type that has the same field names at other positions and on []any lists mixing three struct types; PRNG lists with keys at the extremes of their type (Max/MinInt64, +-2^62, +-Inf, denormals); builders forked from one shared prefix builder (all one-key extensions of every 0..2-key prefix built first, then each sorts); oracle = permutation ordered under the reference lexicographic comparison. distinct_nontrivial = enumerated (api, comparator/stack, list) cases with >= 2 elements",
 				Assumptions: []string{"only strict comparators are generated (sort.SliceStable's contract)", "no stability claim for descriptor sorts", "descriptor keys are never nil"},
 				Exhaustive:  true,
 			}
